@@ -1,7 +1,9 @@
 """Case families.  Each family is a function (rng, n, prefix) -> [Case]."""
 from lib import *
 
-TITLES = [b"", b"Hello", "Grüße 世界 \U0001F600".encode(), b"x" * 300, b"a"]
+TITLES = [b"", b"Hello", "Grüße 世界 \U0001F600".encode(), b"x" * 300, b"a",
+          "\ufeffHoliday".encode(), "\ufeff".encode(), b"  padded  ", b"\tTab", ("x" * 254 + "\u00e9" + "tail").encode(),
+          ("\u4e16" * 100).encode(), ("y" * 253 + "\U0001F600").encode(), b"z" * 255, b"z" * 256, b"nul\x00inside"]
 LANGS = [b"eng", b"und", b"deu", b"zzz", b"aaa", b"ENG", b"e1g", b"en", b"", "éèa".encode(), b"engx"]
 CTIMES = [0, 1, 86399, 86400, 951782400, 951868799, 1700000000, 4102444800, 253402300799, 2**32, 2**40,
           68169600, 825552000, 1078012800, 1709164800, 1709251199, 3981398400, 4107456000, 4107542400, 13574563200]
@@ -80,6 +82,87 @@ def frame_times(rng, n, style=None):
         else:
             out.append(t)
             t += rng.choice([1 / 90000.0, 0.001, 0.0333, 0.04, 1.0, 0.5, 2 / 90000.0])
+    return out
+
+
+def cancelling_ticks(rng, n, base):
+    """n decode times (ticks) whose first and last intervals equal `base`, whose middle intervals deviate
+    from it, and whose total span is exactly base * (n - 1)"""
+    deltas = [base] * (n - 1)
+    if n >= 4:
+        i = rng.range(1, n - 3)
+        d = max(1, min(rng.choice([1, 1, 7, base // 2, base - 1]), base - 1))
+        deltas[i] -= d
+        deltas[i + 1 if i + 1 < n - 2 else i - 1 if i - 1 >= 1 else i] += d
+    t, out = rng.choice([0, 0, 9000]), []
+    for d in [0] + deltas:
+        t += d
+        out.append(t)
+    return out
+
+
+def fam_jitter_cancel(rng, n, prefix):
+    """streams whose timing is irregular but looks constant from its end points (first interval = last
+    interval, span = interval x (n-1)): every per-sample duration must still be the submitted difference"""
+    out = []
+    for i in range(n):
+        cfg = rand_cfg(rng, audio=rng.choice(["none-cfg", "aac-lc", "opus"]), dims=(640, 480), meta=0)
+        cfg["rate"], cfg["ch"] = 48000, 2
+        codec = cfg["codec"]
+        c = Case("%s%d" % (prefix, i), "mux")
+        emit_cfg(c, cfg, rng)
+        nv = rng.range(4, 8)
+        vt = cancelling_ticks(rng, nv, rng.choice([3000, 3003, 1500]))
+        ops = [(t, 0, ["wv", fb(t / 90000.0), hx(video_key(rng, codec) if k == 0 else video_delta(rng, codec)), 1 if k == 0 else 0])
+               for k, t in enumerate(vt)]
+        if has_audio(cfg):
+            at = cancelling_ticks(rng, rng.range(4, 8), rng.choice([1920, 960, 1800]))
+            ops += [(vt[0] + t, 1, ["wa", fb((vt[0] + t) / 90000.0), hx(audio_frame(rng, cfg["audio"]))]) for t in at]
+        ops.sort(key=lambda x: (x[0], x[1]))
+        for _, _, o in ops:
+            c.o(*o)
+        c.o("fin", 0)
+        out.append(c)
+    # the same for fragments: one segment of 4..7 samples whose durations cancel
+    for j in range(max(2, n // 3)):
+        c = Case("%sf%d" % (prefix, j), "frag")
+        frag_builder(rng, c, codec=rng.choice(["h264", "h265"]), stray_always=False)
+        c.lines = [l for l in c.lines]  # builder lines as generated
+        ts = cancelling_ticks(rng, rng.range(4, 8), rng.choice([3000, 2, 1500]))
+        for k, t in enumerate(ts):
+            c.o("fw", "%x" % t, "%x" % t, hx(rng.bytes(rng.range(1, 6))), 1 if k == 0 else 0)
+        c.o("ff")
+        c.o("fw", "%x" % (ts[-1] + 3000), "%x" % (ts[-1] + 3000), hx(rng.bytes(3)), 1)
+        c.o("ff")
+        out.append(c)
+    return out
+
+
+def fam_big_samples(rng, n, prefix):
+    """samples around typical buffer sizes (4 KiB, 8 KiB, 64 KiB) mixed with small ones, audio and video, both
+    layouts: offsets must still resolve to each sample's own bytes (write batching / coalescing)"""
+    out = []
+    for i in range(n):
+        codec = rng.choice(["h264", "h265"])
+        c = Case("%s%d" % (prefix, i), "mux")
+        c.b("video", codec, "280", "1e0")
+        audio = rng.chance(3, 4)
+        if audio:
+            c.b("audio", "aac-lc", "bb80", "2")
+        c.b("fast", i % 2)
+        big = lambda: bytes([rng.below(256)]) * rng.choice([4095, 4096, 8191, 8192, 9000, 16384, 65536])
+        head = (b"\x00\x00\x01\x41" if codec == "h264" else b"\x00\x00\x01\x02\x01")
+        c.o("wv", fb(0.0), hx(video_key(rng, codec)), 1)
+        t = 0.0
+        for k in range(rng.range(2, 5)):
+            if audio:
+                c.o("wa", fb(t + 0.001), hx(adts(rng, payload_len=rng.choice([1, 5, 100]))))
+                if rng.chance(1, 2):
+                    c.o("wa", fb(t + 0.02), hx(adts(rng, payload_len=rng.choice([1, 5, 4000]))))
+            t += 0.04
+            c.o("wv", fb(t), hx(head + (big() if rng.chance(2, 3) else rng.bytes(5))), 0)
+        c.o("fin", 0)
+        out.append(c)
     return out
 
 
@@ -338,6 +421,28 @@ def fam_sink_sweep(rng, n, prefix):
     return out
 
 
+def fam_sink_long(rng, n, prefix):
+    """long video-only (and a few A/V) histories, 17..40 frames, under sinks that never fail but cut single
+    writes short at scattered positions (inside the payload of the 16th, 17th, 32nd ... sample too): batching
+    of sample writes must not lose or repeat a byte"""
+    out = []
+    for i in range(n):
+        nv = rng.choice([17, 18, 20, 33, 40])
+        evs = []
+        cut_at = set(rng.range(2, nv + 6) for _ in range(rng.range(1, 4))) | ({17, 18} if i % 3 == 0 else set())
+        for k in range(nv + 12):
+            if k in cut_at:
+                evs.append("a%x" % rng.choice([1, 2, 3, 5, 7]))
+                if rng.chance(1, 3):
+                    evs.append("i")
+            evs.append("a%x" % 10**6)
+        cfg = rand_cfg(rng, fast=i % 2, audio="none-cfg" if i % 4 else "aac-lc", dims=(640, 480), meta=0)
+        cfg["rate"], cfg["ch"] = 48000, 2
+        out.append(mux_history(rng, "%s%d" % (prefix, i), cfg=cfg, nv=nv, na=0 if i % 4 else 5, bframes=False, rejects=0,
+                               fin=rng.choice([0, 1]), post=1, sink=evs))
+    return out
+
+
 # ---------- fragmented (C10/C11) ----------
 def frag_builder(rng, c, codec=None, stray_always=False):
     codec = codec or rng.choice(VCODECS)
@@ -388,7 +493,7 @@ def fam_frag(rng, n, prefix):
             frag_builder(rng, c)
         L = rng.range(0, 14)
         rejected_at = None
-        dts = rng.choice([0, 0, 9000, 12345, 2**33])
+        dts = rng.choice([0, 0, 9000, 12345, 2**33, 0x7472756E, 0x74666474, 0x6D646174, 0x6D6F6F66, 0x74726166, 0x6D66686400])
         step = rng.choice([3000, 3000, 1, 1500, 90000])
         seg_first = None          # decode time of the first sample queued since the last flush
         after_flush = None        # (first, last) decode times of the segment just flushed
@@ -1072,6 +1177,10 @@ def fam_audio_vs_first_video(rng, n, prefix):
             d += 0.01
             c.o("wvd", fb(max(pt, d) if pt >= d else pt + d), fb(d), hx(video_delta(rng, codec)), 0)
         t = 0.0
+        if rng.chance(1, 3):
+            # a call rejected for its PAYLOAD at a time that would pass the "not before the first video frame" test:
+            # it must not switch that test off for the calls that follow
+            c.o("wa", fb(rng.choice([p0, p0 + 0.1])), hx(rng.choice([b"", b"\xff", rng.bytes(3), bytes(9)])))
         for k in range(rng.range(2, 6)):
             t = max(t, rng.choice([p0 * 0.3, p0 * 0.6, p0 * 0.9, p0, p0 * 1.1, p0 + 0.5]))
             c.o("wa", fb(t), hx(audio_frame(rng, cfg["audio"])))
@@ -1234,6 +1343,30 @@ def fam_exh_annexb(rng, n, prefix):
             name = ("annexb_to_avcc", "nal_iter", "hevc_annexb_to_hvcc")[k % 3] if l < L else "annexb_to_avcc"
             out.append(fn_case("%s%d" % (prefix, k), name, hx(d)))
             k += 1
+    return out
+
+
+def fam_exh_units(rng, n, prefix):
+    """ALL sequences of up to 4 units, each = a 3- or 4-byte start code followed by 0..3 payload bytes (non-zero,
+    or with an inner / trailing zero), through annexb_to_avcc; up to 3 units through the H.265 converter and
+    the iterator: every mix of start-code widths and payload parities"""
+    import itertools
+    bodies = [b"", b"\x65", b"\x41\x9a", b"\x41\x00", b"\x26\x01\xaf", b"\x65\x00\x88", b"\x00"]
+    units = [scode + body for scode in (b"\x00\x00\x01", b"\x00\x00\x00\x01") for body in bodies]
+    out = []
+    k = 0
+    for l in range(1, 5):
+        if l == 4 and n < 20000:
+            break
+        for t in itertools.product(units, repeat=l):
+            d = b"".join(t)
+            names = ["annexb_to_avcc"] if l == 4 else ["annexb_to_avcc", "hevc_annexb_to_hvcc", "nal_iter"]
+            for name in names:
+                if l == 3 and name != "annexb_to_avcc" and k % 3:
+                    k += 1
+                    continue
+                out.append(fn_case("%s%d" % (prefix, k), name, hx(d)))
+                k += 1
     return out
 
 
